@@ -642,6 +642,11 @@ def run(ctx, replay=None):
         "sources, creation and every spelling of rechunk, reshape, operands to unify, tree reductions, overlap, indexing) x every option read "
         "lazily (enumerated from the source; keys actually read are recorded per call) x every value of its domain: alone, with the earlier "
         "builds alive, after gc; all observations must form a function name -> (chunks, dtype), values equal the value alone; "
+        "GRAPH KEYS (harness/props_ext/c06_shared_keys.py): ~45 families of layers with internal task keys (scans, tree / arg reductions, top-k, "
+        "overlap, rechunk, shuffle / take, reshape, store-free io, histogram, percentile, contractions) x every keyword: optimized and rewrite-free "
+        "graphs of all members pooled, every key shared by two members executed in each graph and compared; dask.compute(a, b) and da.stack([a, b]) "
+        "equal the separate computes; USER-PINNED NAMES: every name= API x pushdown triggers (slices, takes, rechunk, transposes, broadcast, reshape, "
+        "reductions, chains): values vs NumPy under extent-hiding consumers, no node / graph key keeps the user's name on another array; "
         "a case is distinct by (registry pair of classes) / (near-duplicate parameter kind) / (perturbed class, operand) / (family, parameter)"
     )
     ctx.assumptions = [
@@ -697,6 +702,13 @@ def run(ctx, replay=None):
             t = ctx.elapsed()
             c06_order.run(ctx, reg)
             timed("order", t)
+            # GRAPH KEYS and USER-PINNED names (harness/props_ext/c06_shared_keys.py): keys shared by the graphs of two calls
+            # differing in one keyword denote one computation; rewrite products never keep a user's name
+            from harness.props_ext import c06_shared_keys
+
+            t = ctx.elapsed()
+            c06_shared_keys.run(ctx, reg)
+            timed("shared_keys", t)
             if ctx.audit.get("broken"):
                 targeted(ctx, reg)
     finally:
@@ -1395,7 +1407,11 @@ def run_replay(ctx, rp):
     reg.install()
     try:
         with dask.config.set(scheduler="sync"):
-            if case.get("order_stream"):  # harness/props_ext/c06_order.py
+            if case.get("shared_keys"):  # harness/props_ext/c06_shared_keys.py
+                from harness.props_ext import c06_shared_keys
+
+                c06_shared_keys.replay(ctx, reg, case)
+            elif case.get("order_stream"):  # harness/props_ext/c06_order.py
                 from harness.props_ext import c06_order
 
                 c06_order.replay(ctx, reg, case)
